@@ -26,6 +26,7 @@ static uint32_t g_done_ops;         /* relaxed atomic: worker ops finished (pace
 static int g_workers_left;          /* relaxed atomic */
 static pthread_barrier_t g_start;
 static int g_have_ec;
+static int g_empty;   /* --empty 1: the rotator now and then deletes ALL ticket keys (legal: "no more session ticket support") */
 
 static inline uint32_t stamp(void) { return __atomic_add_fetch(&g_stamp, 1, __ATOMIC_RELAXED); }
 
@@ -483,9 +484,22 @@ static void *rotator_main(void *arg)
     while (pace(w, &last)) {
         uint32_t r = vf_below(&w->rng, 100);
         int what; /* 0 add, 1 delete head, 2 delete newest, 3 delete missing, 4 delete middle */
-        if (nlive <= 1) what = 0; else if (nlive >= 4) what = 1;
+        if (nlive <= (g_empty ? 0 : 1)) what = 0; else if (nlive >= 4) what = 1;
         else what = r < 40 ? 0 : r < 75 ? 1 : r < 82 ? 2 : r < 90 ? 3 : 4;
         if (what == 4 && nlive < 3) what = 1;
+        if (g_empty && nlive >= 1 && r >= 90 && r < 97) {
+            /* empty the list, newest first; it is refilled one pacing period later */
+            while (nlive > 0) {
+                op_t *o = op_new(w, C_TKDEL); if (!o) return NULL;
+                tk_name(o->name, live[nlive - 1]); o->sub = 5; o->expect = 0;
+                o->call = stamp();
+                o->rc = matrixSslDeleteSessionTicketKey(g_skeys, o->name);
+                o->ret = stamp();
+                if (o->rc != 0) break;
+                nlive--;
+            }
+            continue;
+        }
         if (what == 0) { if (tk_add(w, serial) == 0) live[nlive++] = serial; serial++; continue; }
         op_t *o = op_new(w, C_TKDEL); if (!o) break;
         int idx = what == 1 ? 0 : what == 2 ? nlive - 1 : what == 4 ? 1 : -1;
@@ -623,6 +637,7 @@ int main(int argc, char **argv)
     g_nthreads = (int) vf_argl("--threads", 4);
     g_nops = (int) vf_argl("--ops", 50);
     g_keydir = vf_arg("--keys", g_keydir);
+    g_empty = (int) vf_argl("--empty", 0);
     if (g_nthreads < 1 || g_nthreads > 64 || g_nops < 1) die("bad --threads/--ops", 0);
     if (matrixSslOpen() < 0) die("matrixSslOpen", -1);
     load_keys();
@@ -678,8 +693,8 @@ int main(int argc, char **argv)
     /* ---- single-threaded from here on ---- */
     long total = 0, api = 0, yl = 0, sl = 0;
     char hdr[256];
-    int n = snprintf(hdr, sizeof hdr, "{\"t\":\"run\",\"seed\":%llu,\"threads\":%d,\"ops\":%d,\"have_ec\":%d,\"ncrl\":%d,\"rot_period\":%u,\"crl_period\":%u}\n",
-                     (unsigned long long) vf_seed, g_nthreads, g_nops, g_have_ec, g_ncrl, W[g_nthreads].period, W[g_nthreads + 1].period);
+    int n = snprintf(hdr, sizeof hdr, "{\"t\":\"run\",\"seed\":%llu,\"threads\":%d,\"ops\":%d,\"have_ec\":%d,\"ncrl\":%d,\"rot_period\":%u,\"crl_period\":%u,\"empty\":%d}\n",
+                     (unsigned long long) vf_seed, g_nthreads, g_nops, g_have_ec, g_ncrl, W[g_nthreads].period, W[g_nthreads + 1].period, g_empty);
     vf_write(hdr, n);
     for (int i = 0; i < nw; i++) {
         for (int k = 0; k < W[i].nops; k++) dump_op(&W[i].ops[k]);
